@@ -324,8 +324,10 @@ let base_oracles : Pipeline.base_oracles = {
   Pipeline.b_to_lower = layer_lower;
   Pipeline.b_alphabet_langs = cd_oracles.Cd.alphabet_langs;
 }
-(* the composition itself is the Coq definition Pipeline.pipeline (theorems: Proofs/PipelineFacts.v) *)
-let full_oracles : Detect.oracles = Pipeline.pipeline base_oracles
+(* the composition itself is the Coq definition Pipeline.pipeline_dec (theorems: Proofs/PipelineFacts.v, CodecFacts.v):
+   Pipeline.pipeline with UTF-8, UTF-16LE/BE and every single-byte codec decoded by the models (Model/Codecs.v); only
+   the CJK codecs still go to Q DEC / TEST / CDEC *)
+let full_oracles : Detect.oracles = Pipeline.pipeline_dec base_oracles
 let cmd_detect_full (toks : string list) : unit =
   let cfg, _, _ = parse_settings toks in
   let payload = bytes_of_ocaml (read_tagged "B") in
@@ -482,6 +484,64 @@ let () =
             | Decode.HErr e -> show_err e
             | Decode.HFuel -> print_string "R FUEL\n")
          | _ -> ());
+        flush stdout
+      | ["U16"; bo; mode; h] ->
+        let input = bytes_of_ocaml (string_of_hex h) in
+        let trap, only_test, chunk = match mode with
+          | "STRICT" -> Decode.Strict, false, false
+          | "TEST" -> Decode.Strict, true, false
+          | "CHUNK" -> Decode.Strict, false, true
+          | "IGNORE" -> Decode.Ignore, false, false
+          | "REPLACE" -> Decode.Replace [], false, false
+          | _ -> failwith "bad mode" in
+        (match Utf.utf16_helper (bo = "BE") input trap only_test chunk with
+         | Decode.HOk out -> Printf.printf "R OK %s\n" (SS.concat "," (SL.map (fun c -> string_of_int (int_of_n c)) out))
+         | Decode.HErr e ->
+           let c = match e.Decode.err_cause with Decode.Invalid -> "invalid" | Decode.Incomplete -> "incomplete" | Decode.OtherCause _ -> "other" in
+           Printf.printf "R ERR %s %d\n" c (int_of_z e.Decode.upto)
+         | Decode.HFuel -> print_string "R FUEL\n");
+        flush stdout
+      | ["U16RAW"; bo; feeds] ->
+        (* the raw decoder fed in pieces: per feed "processed:chars:err", then the finish "F:chars:err" *)
+        let d = Utf.utf16_decoder (bo = "BE") in
+        let show_chars out = SS.concat "." (SL.map (fun c -> string_of_int (int_of_n c)) out) in
+        let show_err = function
+          | None -> "-"
+          | Some (e : Decode.codec_error) ->
+            (match e.Decode.err_cause with Decode.Invalid -> "invalid" | Decode.Incomplete -> "incomplete" | Decode.OtherCause _ -> "other")
+            ^ "@" ^ string_of_int (int_of_z e.Decode.upto) in
+        let st = ref d.Decode.dinit in
+        let parts = SL.map (fun f ->
+            let input = bytes_of_ocaml (string_of_hex (if f = "-" then "" else f)) in
+            let (((st', off), out), err) = d.Decode.dfeed !st input in
+            st := st';
+            Printf.sprintf "%d:%s:%s" (int_of_n off) (show_chars out) (show_err err)) (SS.split_on_char ',' feeds) in
+        let ((_, out), err) = d.Decode.dfinish !st in
+        print_string ("R " ^ SS.concat ";" parts ^ ";F:" ^ show_chars out ^ ":" ^ show_err err ^ "\n"); flush stdout
+      | ["UENC"; form; cps] ->
+        (* encoders: code points (decimal, comma separated, '-' = empty) -> bytes *)
+        let t = if cps = "-" then [] else SL.map (fun x -> n_of_int (int_of_string x)) (SS.split_on_char ',' cps) in
+        let b = match form with
+          | "8" -> Utf.utf8_encode t
+          | "16LE" -> Utf.utf16_encode false t
+          | "16BE" -> Utf.utf16_encode true t
+          | _ -> failwith "bad form" in
+        print_string ("R " ^ hex_of_string (ocaml_of_bytes b) ^ "\n"); flush stdout
+      | ["U8CHARS"; h] ->
+        let t = Utf.utf8_chars (bytes_of_ocaml (string_of_hex h)) in
+        print_string ("R " ^ SS.concat "," (SL.map (fun c -> string_of_int (int_of_n c)) t) ^ "\n"); flush stdout
+      | ["CODEC"; e; mode; h] ->
+        (* Model/Codecs.v by encoding name: what DETECTFULL decodes with *)
+        let input = bytes_of_ocaml (string_of_hex h) in
+        (match Codecs.modelled_codec (coq_string (string_of_hex e)) with
+         | None -> print_string "R UNMODELLED\n"
+         | Some k ->
+           (match mode with
+            | "TEST" -> print_string (if Codecs.codec_test k input then "R OK\n" else "R ERR\n")
+            | _ ->
+              (match (if mode = "CHUNK" then Codecs.codec_chunk k input else Codecs.codec_strict k input) with
+               | Some t -> print_string ("R OK " ^ SS.concat "," (SL.map (fun c -> string_of_int (int_of_n c)) t) ^ "\n")
+               | None -> print_string "R ERR\n")));
         flush stdout
       | ["MESSM"; t; thr] ->
         let r = Md.mess_ratio fo (Obj.magic Md32.md_consts32) md_oracles (text_of_utf8 (string_of_hex t)) (f_of_bits (int_of_string thr)) in
